@@ -302,6 +302,9 @@ def handle4 (op : String) (a obs : List String) : Option Verdict :=
       else if action == "reset" then
         (if phase == "after" then ["read=eos", "write=-", "finish=ok", "stopped=closed"]
          else [s!"read=reset:{code}", "write=-", "finish=-", "stopped=closed"])
+      else if action == "stop_late" then
+        (if phase == "after" then ["read=-", "write=not_connected,not_connected", "finish=ok", "stopped=closed"]
+         else ["read=-", s!"write=stopped:{code},stopped:{code}", s!"finish=stopped:{code}", s!"stopped=stopped:{code}"])
       else
         (if phase == "after" then ["read=-", "write=not_connected", "finish=ok", "stopped=closed"]
          else ["read=-", s!"write=stopped:{code}", s!"finish=stopped:{code}", s!"stopped=stopped:{code}"])
@@ -312,7 +315,7 @@ def handle4 (op : String) (a obs : List String) : Option Verdict :=
         -- a signal raised after the stream was finished and acknowledged has nothing left to act on
         (phase == "after" && (field obs "stopped" == "closed" || field obs "stopped" == s!"stopped:{code}"))),
       ("data_before_signal_delivered", match wantGot with
-        | some g => action == "reset" || field obs "got" == toString g || action == "stop"
+        | some g => action == "reset" || field obs "got" == toString g || action == "stop" || action == "stop_late"
         | none => true)]
     pure (model, prop)
   | _ => none
